@@ -59,6 +59,8 @@ def truth(v):
         return v.len > 0
     if isinstance(v, VMap):
         return v.dom != z3.K(v.dom.sort().domain(), z3.BoolVal(False))
+    if isinstance(v, VSeq):
+        return z3.Length(v.z) > 0
     raise Unsupported("truth of %r" % (v,))
 
 
